@@ -1013,6 +1013,24 @@ func (pdCoord *PDCoordinator) removeNamespaceFromNode(origNSInfo *cluster.Partit
 	if !origNSInfo.IsISRQuorum() {
 		return ErrNamespaceReplicaNotEnough
 	}
+	// the same guard as for a failed node (handleNamespaceMigrate): no removal is
+	// marked while more than half of the replicas are unreachable, the raft
+	// group could not carry it out and would be broken for good
+	currentNodes, _ := pdCoord.getCurrentNodesWithRemoving()
+	aliveReplicas := 0
+	for _, replica := range origNSInfo.RaftNodes {
+		if _, ok := currentNodes[replica]; ok {
+			// registered and answering (the registration of a node that just died
+			// is still there for a while)
+			if _, err := IsRaftNodeSynced(origNSInfo, replica); err == nil {
+				aliveReplicas++
+			}
+		}
+	}
+	if aliveReplicas <= origNSInfo.Replica/2 {
+		cluster.CoordLog().Infof("namespace: %v alive replica %v is not enough while removing node %v", origNSInfo.GetDesp(), aliveReplicas, nid)
+		return ErrNamespaceReplicaNotEnough
+	}
 	if origNSInfo.Removings == nil {
 		origNSInfo.Removings = make(map[string]cluster.RemovingInfo)
 	}
